@@ -372,6 +372,101 @@ theorem fanLoop_all {run : State → ObjId → Res} (hrun : ∀ s o s', run s o 
         refine ⟨⟨seg, e, ?_⟩, k⟩
         rw [v]; simp [ha]
 
+/-! ### the loop when a handler destroys at most its own `self` -/
+
+/-- like `Ext`, and every object other than `o` that existed keeps its liveness -/
+structure KeepBut (o : ObjId) (s s' : State) : Prop extends Ext s s' where
+  keep : ∀ x, x < s.nextObj → x ≠ o → s'.alive x = s.alive x
+
+theorem Keep.keepBut {s s' : State} (k : Keep s s') (o : ObjId) : KeepBut o s s' :=
+  ⟨k.toExt, fun x hx _ => k.keep x hx⟩
+
+theorem KeepBut.trans {o : ObjId} {a b c : State} (h1 : KeepBut o a b) (h2 : KeepBut o b c) : KeepBut o a c :=
+  ⟨h1.toExt.trans h2.toExt, fun x hx hne => by
+    rw [h2.keep x (Nat.lt_of_lt_of_le hx h1.next) hne, h1.keep x hx hne]⟩
+
+theorem destroy_keepBut (s : State) (o : ObjId) : KeepBut o s (destroy s o) :=
+  ⟨destroy_ext s o, fun x _ hne => by rw [(destroy_fields s o).1, upd_other _ _ hne]⟩
+
+/-- the statement does not destroy any object other than (possibly) `self` -/
+def Act.selfDeleteOnly : Act → Bool
+  | .delete (.obj _) => false
+  | _ => true
+
+theorem act_keepBut {cfg : Cfg} {o : ObjId} {s s' : State} {a : Act} (hd : a.selfDeleteOnly = true)
+    (h : act cfg (some o) s a = .ok s') : KeepBut o s s' := by
+  cases hn : a.noDelete with
+  | true => exact (act_keep hn h).keepBut o
+  | false =>
+    cases a with
+    | delete w =>
+      cases w with
+      | obj k => cases hd
+      | self =>
+        simp only [act, resolve] at h
+        split at h
+        · rename_i e; split at e <;> cases e
+        · cases h; exact (Keep.of_same (s := s) (s' := say s "!null") rfl rfl rfl).keepBut o
+        · rename_i p e
+          cases h
+          split at e
+          · cases e; exact destroy_keepBut s o
+          · cases e
+    | _ => cases hn
+
+theorem acts_keepBut {cfg : Cfg} {o : ObjId} (l : List Act) (hd : ∀ a ∈ l, a.selfDeleteOnly = true)
+    {s s' : State} (h : acts cfg (some o) l s = .ok s') : KeepBut o s s' := by
+  induction l generalizing s with
+  | nil => cases h; exact (Keep.refl _).keepBut o
+  | cons a t ih =>
+    obtain ⟨s1, h1, h2⟩ := Res.bind_ok h
+    exact (act_keepBut (hd a (by simp)) h1).trans (ih (fun b hb => hd b (by simp [hb])) h2)
+
+/-- when every handler destroys at most its own `self`, the loop executes the command on exactly
+    the members that were alive when it started, each once, in order -/
+theorem fanLoop_selfonly {run : State → ObjId → Res} (hrun : ∀ s o s', run s o = .ok s' → KeepBut o s s')
+    (rs : List WeakRef) (hnd : (rs.filterMap id).Nodup) {s s' : State} (h : fanLoop run rs s = .ok s')
+    (hlt : ∀ o, some o ∈ rs → o < s.nextObj) :
+    (∃ seg, s'.log = s.log ++ seg ∧ visits seg = (rs.filterMap id).filter (fun o => s.alive o)) ∧
+    s.nextObj ≤ s'.nextObj ∧ (∀ x, x < s.nextObj → some x ∉ rs → s'.alive x = s.alive x) := by
+  induction rs generalizing s with
+  | nil => cases h; exact ⟨⟨[], by simp, rfl⟩, Nat.le_refl _, fun _ _ _ => rfl⟩
+  | cons r t ih =>
+    cases r with
+    | none =>
+      obtain ⟨a, b, c⟩ := ih (by simpa using hnd) (s := s) h (fun o ho => hlt o (by simp [ho]))
+      exact ⟨by simpa using a, b, fun x hx hn => c x hx (fun hm => hn (by simp [hm]))⟩
+    | some o =>
+      simp only [fanLoop] at h
+      have hnd' : o ∉ t.filterMap id ∧ (t.filterMap id).Nodup := by simpa using hnd
+      have hot : some o ∉ t := fun hm => hnd'.1 (by simpa using hm)
+      have hlt' : ∀ x, some x ∈ t → x < s.nextObj := fun x hx => hlt x (by simp [hx])
+      by_cases ha : s.alive o = true
+      · simp only [ha, if_true] at h
+        obtain ⟨s2, h1, h2⟩ := Res.bind_ok h
+        have k := hrun _ o s2 h1
+        obtain ⟨seg1, e1, v1⟩ := k.log
+        have n1 : s.nextObj ≤ s2.nextObj := k.next
+        have a1 : ∀ x, x < s.nextObj → x ≠ o → s2.alive x = s.alive x := k.keep
+        obtain ⟨⟨seg2, e2, v2⟩, n2, a2⟩ := ih hnd'.2 h2 (fun x hx => Nat.lt_of_lt_of_le (hlt' x hx) n1)
+        refine ⟨⟨[.visited o] ++ seg1 ++ seg2, ?_, ?_⟩, Nat.le_trans n1 n2, ?_⟩
+        · rw [e2, e1]; simp [List.append_assoc]
+        · rw [visits_append, visits_append, v1, v2]
+          have hc : (t.filterMap id).filter (fun x => s2.alive x) = (t.filterMap id).filter (fun x => s.alive x) := by
+            apply List.filter_congr
+            intro x hx
+            have hxt : some x ∈ t := by simpa using hx
+            have hxo : x ≠ o := fun e => hot (e ▸ hxt)
+            rw [a1 x (hlt' x hxt) hxo]
+          simp [visits, hc, ha]
+        · intro x hx hn
+          have hxo : x ≠ o := fun e => hn (by simp [e])
+          rw [a2 x (Nat.lt_of_lt_of_le hx n1) (fun hm => hn (by simp [hm])), a1 x hx hxo]
+      · simp only [ha] at h
+        obtain ⟨⟨seg, e, v⟩, b, c⟩ := ih hnd'.2 (s := s) h hlt'
+        refine ⟨⟨seg, e, ?_⟩, b, fun x hx hn => c x hx (fun hm => hn (by simp [hm]))⟩
+        rw [v]; simp [ha]
+
 /-- the loop of the (repaired) field assignment over live members -/
 theorem fanLoop_setOne (x : Nat) (rs : List WeakRef) {s s' : State}
     (h : fanLoop (fun st o => .ok { st with fld := upd st.fld o x }) rs s = .ok s')
